@@ -193,6 +193,10 @@ def ood_cases():
                     yield "bitfield:noshift:%s:%d:stray-low-bits:%d" % (bits, idx, low), \
                         {"k": "bitfield", "p": p, "bits": bits, "shift": False}, ("POSITIONED", v)
             cur += bits[idx]
+    # coordinate values with more components than the field has (fewer are filled up with the coordinate class's defaults by design)
+    from hippolyzer.lib.base.datatypes import Vector2, Vector3, Vector4
+    yield "vec3:given-Vector4", {"k": "vec3"}, ("OBJ", Vector4(1.0, 2.0, 3.0, 4.0))
+    yield "vec3:given-4-tuple", {"k": "vec3"}, ("OBJ", (1.0, 2.0, 3.0, 4.0))
     yield "prim:U8:256", {"k": "prim", "p": "U8"}, 256
     yield "prim:S8:-129", {"k": "prim", "p": "S8"}, -129
     yield "typed_byte_array:U8:inner-too-long", {"k": "typed_byte_array", "len": "U8", "lazy": False, "empty_is_none": False,
@@ -213,6 +217,8 @@ def check_ood(name, desc, value):
             richv = vals
         elif isinstance(value, tuple) and value and value[0] == "POSITIONED":
             richv = {"f%d" % i: x for i, x in enumerate(value[1])}
+        elif isinstance(value, tuple) and value and value[0] == "OBJ":
+            richv = value[1]
         else:
             richv = gs.rich(desc, value) if not isinstance(value, (bytes, str)) or desc["k"] in ("byte_array", "bytes_fixed", "str", "str_fixed") else value
         try:
